@@ -20,6 +20,7 @@ import (
 	"os"
 	"os/exec"
 	"path/filepath"
+	"sort"
 	"strconv"
 	"strings"
 )
@@ -114,6 +115,10 @@ var VerifPoint func(kind uint8, obj uintptr, arg int) bool
 // will never be released, so the shim panics instead of blocking forever.
 var VerifSequential func() bool
 
+// VerifSeqAcquire, when set, performs the acquisition of a sequential harness: it retries try until it succeeds and
+// panics only when no other goroutine is left that could release the lock.
+var VerifSeqAcquire func(try func() bool, what string)
+
 type vMutex struct{ mu sync.Mutex }
 
 func (m *vMutex) Lock() {
@@ -122,6 +127,10 @@ func (m *vMutex) Lock() {
 		return
 	}
 	if VerifSequential != nil && VerifSequential() {
+		if VerifSeqAcquire != nil {
+			VerifSeqAcquire(m.mu.TryLock, "bbolt: lock (held by an unfinished transaction)")
+			return
+		}
 		if !m.mu.TryLock() {
 			panic(errors.New("bbolt: lock would block forever (held by an unfinished transaction; nobody else is running)"))
 		}
@@ -146,6 +155,10 @@ func (m *vRWMutex) Lock() {
 		return
 	}
 	if VerifSequential != nil && VerifSequential() {
+		if VerifSeqAcquire != nil {
+			VerifSeqAcquire(m.mu.TryLock, "bbolt: lock (a transaction is still open)")
+			return
+		}
 		if !m.mu.TryLock() {
 			panic(errors.New("bbolt: lock would block forever (a transaction is still open; nobody else is running)"))
 		}
@@ -167,6 +180,10 @@ func (m *vRWMutex) RLock() {
 		return
 	}
 	if VerifSequential != nil && VerifSequential() {
+		if VerifSeqAcquire != nil {
+			VerifSeqAcquire(m.mu.TryRLock, "bbolt: read lock")
+			return
+		}
 		if !m.mu.TryRLock() {
 			panic(errors.New("bbolt: read lock would block forever (nobody else is running)"))
 		}
@@ -295,6 +312,7 @@ func rewrite(src, out string) bool {
 		}
 	}
 	// go statements: `go f(a, b)` -> `sync.Go(func() { f(a, b) })` with arguments evaluated first.
+	// channel operations outside select: `<-ch` -> `sync.Recv(ch)` etc. (see chanEdits)
 	hasGo := false
 	ast.Inspect(f, func(n ast.Node) bool {
 		if _, ok := n.(*ast.GoStmt); ok {
@@ -302,7 +320,8 @@ func rewrite(src, out string) bool {
 		}
 		return true
 	})
-	if hasGo {
+	hasChan := len(chanEdits(fset, f, "x")) > 0
+	if hasGo || hasChan {
 		if syncName == "" || syncName == "_" || syncName == "." {
 			syncName = "zzvsync"
 			f.Imports = append(f.Imports, nil) // placeholder, real decl added below
@@ -310,7 +329,9 @@ func rewrite(src, out string) bool {
 			spec := &ast.ImportSpec{Name: ast.NewIdent(syncName), Path: &ast.BasicLit{Kind: token.STRING, Value: strconv.Quote(modPath + "/zzverif/vsync")}}
 			f.Decls = append([]ast.Decl{&ast.GenDecl{Tok: token.IMPORT, Specs: []ast.Spec{spec}}}, f.Decls...)
 		}
-		rewriteGo(f, syncName)
+		if hasGo {
+			rewriteGo(f, syncName)
+		}
 		changed = true
 	}
 	if !changed {
@@ -318,8 +339,123 @@ func rewrite(src, out string) bool {
 	}
 	var buf bytes.Buffer
 	must(format.Node(&buf, fset, f))
-	must(os.WriteFile(out, buf.Bytes(), 0o644))
+	src2 := buf.Bytes()
+	// channel operations: text splices on the formatted source, innermost first, until none is left
+	for pass := 0; hasChan && pass < 20; pass++ {
+		fs := token.NewFileSet()
+		f2, err := parser.ParseFile(fs, out, src2, parser.ParseComments)
+		if err != nil {
+			die("re-parse of rewritten %s: %v", src, err)
+		}
+		eds := chanEdits(fs, f2, syncName)
+		if len(eds) == 0 {
+			break
+		}
+		sort.Slice(eds, func(i, j int) bool { return eds[i].from > eds[j].from })
+		for _, e := range eds {
+			src2 = append(append(append([]byte{}, src2[:e.from]...), []byte(e.text(src2))...), src2[e.to:]...)
+		}
+	}
+	must(os.WriteFile(out, src2, 0o644))
 	return true
+}
+
+// chanEdit replaces the source range [from,to) of one channel operation by a call of a vsync function.
+type chanEdit struct {
+	from, to int
+	text     func(src []byte) string
+}
+
+// chanEdits finds the channel operations that can be rewritten in this pass: receive expressions, two-value receives,
+// send statements and close calls that are not a communication clause of a select and contain no other candidate.
+func chanEdits(fset *token.FileSet, f *ast.File, pkg string) []chanEdit {
+	off := func(p token.Pos) int { return fset.Position(p).Offset }
+	txt := func(src []byte, n ast.Node) string { return string(src[off(n.Pos()):off(n.End())]) }
+	skip := map[ast.Node]bool{} // communication statements of select clauses
+	ast.Inspect(f, func(n ast.Node) bool {
+		if cc, ok := n.(*ast.CommClause); ok && cc.Comm != nil {
+			skip[cc.Comm] = true
+		}
+		return true
+	})
+	isRecv := func(e ast.Expr) (*ast.UnaryExpr, bool) {
+		for {
+			p, ok := e.(*ast.ParenExpr)
+			if !ok {
+				break
+			}
+			e = p.X
+		}
+		u, ok := e.(*ast.UnaryExpr)
+		return u, ok && u.Op == token.ARROW
+	}
+	contains := func(n ast.Node) bool { // does n contain a candidate below itself?
+		found := false
+		ast.Inspect(n, func(m ast.Node) bool {
+			if m == nil || m == n || found {
+				return !found
+			}
+			switch x := m.(type) {
+			case *ast.UnaryExpr:
+				found = found || x.Op == token.ARROW
+			case *ast.SendStmt:
+				found = true
+			case *ast.CallExpr:
+				if id, ok := x.Fun.(*ast.Ident); ok && id.Name == "close" && len(x.Args) == 1 {
+					found = true
+				}
+			case *ast.SelectStmt:
+				return false
+			}
+			return !found
+		})
+		return found
+	}
+	var out []chanEdit
+	handled := map[ast.Node]bool{}
+	var walk func(n ast.Node) bool
+	walk = func(n ast.Node) bool {
+		if n == nil {
+			return true
+		}
+		if skip[n] {
+			// the communication itself stays; its operands may still contain receives, which we leave alone too
+			return false
+		}
+		switch x := n.(type) {
+		case *ast.AssignStmt:
+			if len(x.Lhs) == 2 && len(x.Rhs) == 1 {
+				if u, ok := isRecv(x.Rhs[0]); ok && !contains(u) {
+					handled[u] = true
+					r := x.Rhs[0]
+					out = append(out, chanEdit{off(r.Pos()), off(r.End()), func(src []byte) string { return pkg + ".Recv2(" + txt(src, u.X) + ")" }})
+				}
+			}
+		case *ast.ValueSpec:
+			if len(x.Names) == 2 && len(x.Values) == 1 {
+				if u, ok := isRecv(x.Values[0]); ok && !contains(u) {
+					handled[u] = true
+					r := x.Values[0]
+					out = append(out, chanEdit{off(r.Pos()), off(r.End()), func(src []byte) string { return pkg + ".Recv2(" + txt(src, u.X) + ")" }})
+				}
+			}
+		case *ast.UnaryExpr:
+			if x.Op == token.ARROW && !handled[x] && !contains(x) {
+				out = append(out, chanEdit{off(x.Pos()), off(x.End()), func(src []byte) string { return pkg + ".Recv(" + txt(src, x.X) + ")" }})
+			}
+		case *ast.SendStmt:
+			if !contains(x) {
+				out = append(out, chanEdit{off(x.Pos()), off(x.End()), func(src []byte) string { return pkg + ".Send(" + txt(src, x.Chan) + ", " + txt(src, x.Value) + ")" }})
+			}
+		case *ast.CallExpr:
+			if id, ok := x.Fun.(*ast.Ident); ok && id.Name == "close" && len(x.Args) == 1 && !contains(x) {
+				out = append(out, chanEdit{off(x.Pos()), off(x.End()), func(src []byte) string { return pkg + ".Close(" + txt(src, x.Args[0]) + ")" }})
+			}
+		}
+		return true
+	}
+	ast.Inspect(f, walk)
+	return out
 }
 
 func rewriteGo(f *ast.File, syncName string) {
